@@ -103,9 +103,6 @@ theorem ssFind_eq [DecidableEq α] (hst : StrictTotal lt) {l : List α} (hs : So
 
 /-! ## insert / emplace -/
 
-/-- invariant of one set: strictly ascending and within capacity -/
-def Inv1 (lt : α → α → Bool) (cap : Nat) (l : List α) : Prop := Sorted lt l ∧ l.length ≤ cap
-
 theorem spec_insert_inv (hst : StrictTotal lt) {cap : Nat} {l : List α} (h : Inv1 lt cap l) (k : α) :
     Inv1 lt cap (Spec.insert lt cap l k).1 := by
   obtain ⟨hs, hc⟩ := h
@@ -306,14 +303,6 @@ theorem spec_insertRange_inv (hst : StrictTotal lt) {cap : Nat} (ks : List α) :
 
 /-! ## histories -/
 
-/-- invariant of a history state: both live sets are strictly ascending and within capacity -/
-def Inv (lt : α → α → Bool) (cap : Nat) (s : St α) : Prop := Inv1 lt cap s.cur ∧ Inv1 lt cap s.other
-
-/-- extract/replace exist for flat_set only -/
-def opOk (kind : Kind) : Op α → Bool
-  | .extract | .replace _ => kind != .ss
-  | _ => true
-
 theorem spec_eraseKey_inv {cap : Nat} {l : List α} (h : Inv1 lt cap l) (k : α) :
     Inv1 lt cap (Spec.eraseKey lt l k).1 :=
   ⟨sorted_filter h.1 _, Nat.le_trans (List.length_filter_le _ _) h.2⟩
@@ -436,15 +425,6 @@ theorem step_refines [DecidableEq α] (hst : StrictTotal lt) (kind : Kind) {cap 
   | lowerBound k => cases kind <;> simp [step, Spec.step, lowerBound_eq hst hs]
   | upperBound k => cases kind <;> simp [step, Spec.step, upperBound_eq hst hs]
   | equalRange k => cases kind <;> simp [step, Spec.step, equalRange_eq hst hs]
-
-/-- all operations of the history are defined for this kind of set -/
-def opsOk (kind : Kind) (ops : List (Op α)) : Bool := ops.all (opOk kind)
-
-/-- precondition of a history as the generator uses it: every operation meets its documented
-    precondition in the state the *spec* reaches -/
-def validHist (isSet : Bool) (lt : α → α → Bool) (cap : Nat) : St α → List (Op α) → Bool
-  | _, [] => true
-  | s, op :: ops => Spec.valid cap lt s op && validHist isSet lt cap (Spec.step isSet lt cap s op).1 ops
 
 /-- MAIN THEOREM (refinement over histories).  From any state whose two sets are strictly
     ascending and within capacity, every history of insert/emplace, range insert, erase by
